@@ -914,3 +914,118 @@ func runLife(p *pki, cfg, seq string) (lifeObs, bool) {
 		return o, portRace
 	}
 }
+
+// ---------------------------------------------------------------- C14: concurrent workload for the race detector
+// racestress <seconds> <clients> <seed>: clients mix every command family with connection churn, CONFIG SET/GET, registry
+// enumeration (Conns / ConnByUUID / Close of an enumerated connection) and Stop / Restart.  Built with -race; the race
+// detector's reports are the output (stderr / GORACE log_path).
+func modeRaceStress(args []string) {
+	secs, clients, seed := 6, 8, 1
+	if len(args) > 0 {
+		secs, _ = strconv.Atoi(args[0])
+	}
+	if len(args) > 1 {
+		clients, _ = strconv.Atoi(args[1])
+	}
+	if len(args) > 2 {
+		seed, _ = strconv.Atoi(args[2])
+	}
+	warmUp()
+	p := newPKI()
+	defer p.cleanup()
+	s := newSUT(p, "both", true, "")
+	if err := s.srv.Start(); err != nil {
+		fmt.Fprintln(os.Stderr, "start:", err)
+		os.Exit(3)
+	}
+	deadline := time.Now().Add(time.Duration(secs) * time.Second)
+	var wg sync.WaitGroup
+	var ops int64
+	cmds := [][]string{{"PING"}, {"SET", "k", "v"}, {"GET", "k"}, {"INCR", "n"}, {"CONFIG", "SET", "maxmemory", "1"}, {"CONFIG", "GET", "maxmemory", "port"}, {"SELECT", "1"},
+		{"RPUSH", "l", "a"}, {"LPOP", "l"}, {"SADD", "s", "a"}, {"SMEMBERS", "s"}, {"ZADD", "z", "1", "a"}, {"ZRANGE", "z", "0", "-1"}, {"HSET", "h", "f", "v"}, {"HGETALL", "h"},
+		{"MSET", "a", "1", "b", "2"}, {"MGET", "a", "b"}, {"KEYS", "*"}, {"DEL", "k"}, {"ECHO", "x"}, {"STRLEN", "k"}, {"APPEND", "k", "x"}, {"WHOAMI"}}
+	for w := 0; w < clients; w++ {
+		wg.Add(1)
+		go func(w int) {
+			defer wg.Done()
+			x := uint32(seed*7919+w)*2654435761 + 1
+			next := func() int { x ^= x << 13; x ^= x >> 17; x ^= x << 5; return int(x >> 1) }
+			vc := p.valid.tlsCert()
+			for time.Now().Before(deadline) {
+				var c net.Conn
+				var raw net.Conn
+				var err error
+				if next()%3 == 0 {
+					raw, err = net.DialTimeout("tcp", addr(s.secure), time.Second)
+					if err != nil {
+						time.Sleep(time.Millisecond)
+						continue
+					}
+					tc := tls.Client(raw, p.clientConfig(&vc))
+					tc.SetDeadline(time.Now().Add(time.Second))
+					if tc.Handshake() != nil {
+						raw.Close()
+						continue
+					}
+					c = tc
+				} else {
+					c, err = net.DialTimeout("tcp", addr(s.plain), time.Second)
+					if err != nil {
+						time.Sleep(time.Millisecond)
+						continue
+					}
+					raw = c
+				}
+				n := 1 + next()%6
+				for i := 0; i < n; i++ {
+					cmd := cmds[next()%len(cmds)]
+					c.SetDeadline(time.Now().Add(time.Second))
+					if _, err := exchange(c, resp(cmd...)); err != nil {
+						break
+					}
+					atomic.AddInt64(&ops, 1)
+				}
+				switch next() % 4 {
+				case 0:
+					rst(raw)
+				case 1:
+					exchange(c, resp("QUIT"))
+					c.Close()
+				default:
+					c.Close()
+				}
+			}
+		}(w)
+	}
+	// registry enumeration
+	wg.Add(1)
+	go func() {
+		defer wg.Done()
+		i := 0
+		for time.Now().Before(deadline) {
+			for _, c := range s.srv.Conns() {
+				s.srv.ConnByUUID(c.UUID())
+				i++
+				if i%7 == 0 {
+					time.Sleep(2 * time.Millisecond) // the client may well be gone by now
+					c.Close()
+				}
+			}
+			time.Sleep(time.Millisecond)
+		}
+	}()
+	// the API thread
+	restarts := 0
+	for time.Now().Before(deadline) {
+		time.Sleep(250 * time.Millisecond)
+		if err := s.srv.Restart(); err != nil {
+			fmt.Fprintln(os.Stderr, "restart:", err)
+			time.Sleep(50 * time.Millisecond)
+			s.srv.Start()
+		}
+		restarts++
+	}
+	wg.Wait()
+	s.srv.Stop()
+	emit(map[string]any{"ops": atomic.LoadInt64(&ops), "restarts": restarts, "clients": clients, "seconds": secs})
+}
